@@ -768,6 +768,9 @@ pub enum Algo {
     Sieve,
     S3Fifo { small: f64, ghost: f64, threshold: u8 },
     Lfu { window: f64, protected: f64 },
+    /// w-TinyLFU with a small count-min sketch (`cmsketch_eps`): the sketch ages (halves) after a few dozen
+    /// accesses instead of a few thousand.
+    LfuSketch { window: f64, protected: f64, eps: f64 },
 }
 
 impl Algo {
@@ -778,6 +781,7 @@ impl Algo {
             Algo::Sieve => "sieve".into(),
             Algo::S3Fifo { small, ghost, threshold } => format!("s3fifo({small},{ghost},{threshold})"),
             Algo::Lfu { window, protected } => format!("lfu({window},{protected})"),
+            Algo::LfuSketch { window, protected, eps } => format!("lfu({window},{protected},eps={eps})"),
         }
     }
 
@@ -787,7 +791,7 @@ impl Algo {
             Algo::Lru { .. } => "lru",
             Algo::Sieve => "sieve",
             Algo::S3Fifo { .. } => "s3fifo",
-            Algo::Lfu { .. } => "lfu",
+            Algo::Lfu { .. } | Algo::LfuSketch { .. } => "lfu",
         }
     }
 
@@ -804,6 +808,7 @@ impl Algo {
                 Box::new(S3FifoRef::new(shard_capacity, small, ghost, threshold))
             }
             Algo::Lfu { window, protected } => Box::new(LfuRef::new(shard_capacity, window, protected, 0.001, 0.9)),
+            Algo::LfuSketch { window, protected, eps } => Box::new(LfuRef::new(shard_capacity, window, protected, eps, 0.9)),
         }
     }
 
